@@ -781,9 +781,9 @@ func (s *Server) netServe() error {
 							s.mu.Lock()
 							defer s.mu.Unlock()
 							s.flushAOF(false)
+							s.aofdirty.Store(false)
 						}()
 						verifPoint(s, "prewrite.flushed", client.id)
-						s.aofdirty.Store(false)
 						verifPoint(s, "prewrite.cleared", client.id)
 					}
 					conn.Write(client.out)
